@@ -31,7 +31,7 @@ func c05Stage() []Op {
 		{K: "put", Key: "b", VC: "L", Dev: true},
 		{K: "put", Key: "c", VC: "S", Dev: true},
 		{K: "del", Key: "c", Dev: true},
-		{K: "put", Key: "a", VC: "E", Dev: true}, // empty value: equal to what a staged delete leaves behind
+		{K: "put", Key: "a", VC: "E", Dev: true},  // empty value: equal to what a staged delete leaves behind
 		{K: "put", Key: "b", VC: "S2", Dev: true}, // the same bytes as the previous put(b,S2): a no-op restage
 	}
 }
